@@ -9,13 +9,111 @@ contract('saml2_tophat.response:for_me',
          types={'conditions': "Inst('saml2_tophat.saml:Conditions')", 'myself': 'Str'}, returns='Bool',
          lets={'RS': 'conditions.audience_restriction'},
          ensures=[('none', 'implies(not truthy(RS), result is True)'),
-                  ('some', 'implies(truthy(RS) and result is True, exists(lambda i: names(RS[i], myself), 0, len(RS)))'),
-                  ('false', 'implies(truthy(RS) and result is False, forall(lambda i: not names(RS[i], myself), 0, len(RS)))'),
                   # C05: *every* audience restriction present must list the provider
-                  ('C05-every', 'implies(truthy(RS) and result is True, '
-                                'forall(lambda i: implies(truthy(RS[i].audience), names(RS[i], myself)), 0, len(RS)))')],
+                  ('C05-every', 'implies(truthy(RS) and result is True, forall(lambda i: names(RS[i], myself), 0, len(RS)))'),
+                  ('false', 'implies(truthy(RS) and result is False, exists(lambda i: not names(RS[i], myself), 0, len(RS)))')],
          raises={'AttributeError': 'True'},     # an <Audience/> without text
          modifies=[],
-         loops={0: {'inv': ['forall(lambda k: not names(seq0[k], myself), 0, i0)']},
+         loops={0: {'inv': ['forall(lambda k: names(seq0[k], myself), 0, i0)']},
                 1: {'inv': ['forall(lambda k: strip(seq1[k].text) != myself, 0, i1)']}},
          clauses_from={'C05': ['C05-every']})
+
+# ------------------------------------------------------------------------------------------------
+# helpers of the schema base class used by the validation code (A-PY: __dict__ holds exactly the members)
+contract('saml2_tophat:SamlBase.keyswv', trusted=True, pure=True, params=['self'], returns='List(Str)',
+         ensures=['implies(not truthy(result), not truthy(self.not_before) and not truthy(self.not_on_or_after) '
+                  'and not truthy(self.audience_restriction) and not truthy(self.condition))'],
+         assumptions=['A-PY'], note='list of member names whose value is truthy; only the empty case is used')
+
+SR = 'saml2_tophat.response:StatusResponse'
+AR_ = 'saml2_tophat.response:AuthnResponse'
+
+# ---- C04: IssueInstant within one day (+ allowance) of now
+contract(SR + '.issue_instant_ok', returns='Bool',
+         requires=['self.response is not None'],
+         lets={'ii': 'self.response.issue_instant'},
+         ensures=[('C04-window', 'implies(result is True, epoch(ii) - NOW <= 86400 + self.timeslack '
+                                 'and NOW - epoch(ii) <= 86400 + self.timeslack)'),
+                  ('C04-accept', 'implies(epoch(ii) - NOW < 86400 + self.timeslack and NOW - epoch(ii) < 86400 + self.timeslack, '
+                                 'result is True)')],
+         raises={'Exception': 'not truthy(ii) or not parsable(ii)'},
+         modifies=[], clauses_from={'C04': ['C04-window', 'C04-accept']})
+
+# ---- C04: SessionNotOnOrAfter
+contract(AR_ + '.authn_statement_ok', types={'optional': 'Any'}, returns='Bool',
+         requires=['self.assertion is not None'],
+         lets={'AS': 'self.assertion.authn_statement'},
+         ensures=[('C04-session', 'implies(not truthy(optional) and truthy(AS[0].session_not_on_or_after), '
+                                  'NOW <= epoch(AS[0].session_not_on_or_after) + self.timeslack)'),
+                  ('C04-session-value', 'implies(result is True and len(AS) == 1 and truthy(AS[0].session_not_on_or_after), '
+                                        'self.session_not_on_or_after == epoch(AS[0].session_not_on_or_after))'),
+                  ('one-statement', 'implies(not truthy(optional), len(AS) == 1)'),
+                  ('frame-else', 'implies(not (len(AS) == 1 and truthy(AS[0].session_not_on_or_after)), '
+                                 'self.session_not_on_or_after == old(self.session_not_on_or_after))')],
+         raises={'AssertionError': 'len(AS) != 1 and not truthy(optional)',
+                 'ResponseLifetimeExceed': 'len(AS) == 1 and truthy(AS[0].session_not_on_or_after) and '
+                                           'NOW > epoch(AS[0].session_not_on_or_after) + self.timeslack',
+                 'ValueError': 'len(AS) == 1 and truthy(AS[0].session_not_on_or_after) and '
+                               'not parsable(AS[0].session_not_on_or_after)',
+                 'AttributeError': 'len(AS) == 1 and truthy(AS[0].session_not_on_or_after) and '
+                                   'not parsable(AS[0].session_not_on_or_after)'},
+         modifies=['self.session_not_on_or_after'],
+         clauses_from={'C04': ['C04-session', 'C04-session-value', 'raises.ResponseLifetimeExceed']})
+
+# ---- C04 + C05: Conditions
+_C = 'self.assertion.conditions'
+contract(AR_ + '.condition_ok', types={'lax': 'Any'}, returns='Bool',
+         requires=['self.assertion is not None'],
+         lets={'C': _C, 'strict': 'not truthy(lax) and not truthy(self.test)',
+               'RS': 'self.assertion.conditions.audience_restriction'},
+         ensures=[('C04-nooa', 'implies(result is True and strict and C is not None and truthy(C.not_on_or_after), '
+                               'NOW <= epoch(C.not_on_or_after) + self.timeslack)'),
+                  ('C04-nb', 'implies(result is True and strict and C is not None and truthy(C.not_before), '
+                             'epoch(C.not_before) <= NOW + self.timeslack)'),
+                  ('C04-order', 'implies(result is True and C is not None and truthy(C.not_before) and truthy(C.not_on_or_after), '
+                                'epoch(C.not_on_or_after) >= epoch(C.not_before))'),
+                  ('C04-expiry-value', 'implies(result is True and strict and C is not None and truthy(C.not_on_or_after), '
+                                       'self.not_on_or_after == epoch(C.not_on_or_after))'),
+                  # C05: audience restrictions are enforced whatever allow_unsolicited says
+                  ('C05-audience', 'implies(result is True and strict and C is not None and truthy(RS), '
+                                   'forall(lambda i: names(RS[i], self.entity_id), 0, len(RS)))')],
+         raises={'ResponseLifetimeExceed': 'C is not None and truthy(C.not_on_or_after) and '
+                                           'NOW > epoch(C.not_on_or_after) + self.timeslack',
+                 'ToEarly': 'C is not None and truthy(C.not_before) and epoch(C.not_before) > NOW + self.timeslack',
+                 'Exception': 'True'},
+         modifies=['self.not_on_or_after'],
+         loops={0: {'inv': []}},
+         clauses_from={'C04': ['C04-nooa', 'C04-nb', 'C04-order', 'C04-expiry-value', 'raises.ResponseLifetimeExceed',
+                               'raises.ToEarly'], 'C05': ['C05-audience']})
+
+contract('saml2_tophat.validate:valid_address', trusted=True, pure=True, params=['address'], returns='Bool',
+         ensures=['result is True'], raises={'NotValid': 'True'}, assumptions=['E-IPADDR'],
+         note='address syntax only; irrelevant to the properties')
+
+# ---- C04 + C05: bearer SubjectConfirmationData
+_D = "Opt(Inst('saml2_tophat.saml:SubjectConfirmationData'))"
+contract(AR_ + '._bearer_confirmed', types={'data': _D}, returns='Bool',
+         ensures=[('no-data', 'implies(data is None, result is False)'),
+                  ('C04-nooa', 'implies(result is True and truthy(data.not_on_or_after), '
+                               'NOW <= epoch(data.not_on_or_after) + self.timeslack)'),
+                  ('C04-nb', 'implies(result is True and truthy(data.not_before), epoch(data.not_before) <= NOW + self.timeslack)'),
+                  ('C04-order', 'implies(result is True and truthy(data.not_before) and truthy(data.not_on_or_after), '
+                                'epoch(data.not_on_or_after) >= epoch(data.not_before))'),
+                  # C05: a bearer confirmation that names a request names an outstanding one (unless unsolicited allowed)
+                  ('C05-solicited', 'implies(result is True and truthy(self.asynchop) and old(self.came_from) is None '
+                                    'and truthy(data.in_response_to) and not truthy(self.allow_unsolicited), '
+                                    'data.in_response_to in self.outstanding_queries)'),
+                  ('came-from', 'implies(result is True and truthy(self.asynchop) and old(self.came_from) is None '
+                                'and truthy(data.in_response_to) and data.in_response_to in self.outstanding_queries, '
+                                'self.came_from == self.outstanding_queries[data.in_response_to])'),
+                  ('came-from-frame', 'implies(not (truthy(self.asynchop) and old(self.came_from) is None '
+                                      'and data is not None and truthy(data.in_response_to) '
+                                      'and data.in_response_to in self.outstanding_queries), '
+                                      'self.came_from == old(self.came_from))')],
+         raises={'ResponseLifetimeExceed': 'data is not None and truthy(data.not_on_or_after) and '
+                                           'NOW > epoch(data.not_on_or_after) + self.timeslack',
+                 'ToEarly': 'data is not None and truthy(data.not_before) and epoch(data.not_before) > NOW + self.timeslack',
+                 'Exception': 'True'},
+         modifies=['self.came_from'],
+         clauses_from={'C04': ['C04-nooa', 'C04-nb', 'C04-order', 'raises.ResponseLifetimeExceed', 'raises.ToEarly'],
+                       'C05': ['C05-solicited']})
